@@ -205,7 +205,11 @@ func (x *Exec) evalSelector(s *State, e *ast.SelectorExpr) *Term {
 		}
 		fv := x.u.fieldVar(named, e.Sel.Name)
 		fs := x.u.sortOf(ft)
-		return withType(Select(x.getSt(s, fv, arraySort(SRef, fs)), base), ft)
+		val := withType(Select(x.getSt(s, fv, arraySort(SRef, fs)), base), ft)
+		if isSliceSort(fs) {
+			s.assume(Le(Num(0), sliceLen(val)))
+		}
+		return val
 	case types.MethodVal:
 		x.fail(e, "method value")
 	}
@@ -417,9 +421,15 @@ func (x *Exec) evalOperandPair(s *State, a, b ast.Expr) (*Term, *Term) {
 	switch {
 	case isNil(a) && !isNil(b):
 		r := x.eval(s, b)
+		if isSliceSort(r.Sort) {
+			return mk("isnil_"+r.Sort, SBool, r), True
+		}
 		return x.nilOf(r), r
 	case isNil(b) && !isNil(a):
 		l := x.eval(s, a)
+		if isSliceSort(l.Sort) {
+			return mk("isnil_"+l.Sort, SBool, l), True
+		}
 		return l, x.nilOf(l)
 	}
 	l := x.eval(s, a)
@@ -523,6 +533,13 @@ func (x *Exec) evalComposite(s *State, e *ast.CompositeLit, addr bool) *Term {
 		}
 		el := x.u.sliceElem(srt)
 		arr := &Term{Op: "const-array", Sort: arraySort(SInt, el), Args: []*Term{x.u.zero(el)}}
+		if len(e.Elts) == 0 {
+			// an empty literal is a non-nil slice: keep it distinguishable from the zero value
+			arr = x.fresh("emptylit", arraySort(SInt, el))
+			r := x.u.mkSlice(srt, Num(0), arr)
+			s.assume(Not(mk("isnil_"+srt, SBool, r)))
+			return withType(r, t)
+		}
 		for i, elt := range e.Elts {
 			if _, ok := elt.(*ast.KeyValueExpr); ok {
 				x.fail(e, "keyed slice literal")
